@@ -394,6 +394,7 @@ pub(super) fn derive_schema(input: TokenStream) -> syn::Result<TokenStream> {
                 };
 
                 let is_unit = matches!(v.fields, Fields::Unit);
+                let is_newtype_of_option = matches!(&v.fields, Fields::Unnamed(u) if u.unnamed.len() == 1 && inner_Option(&u.unnamed[0].ty).is_some());
 
                 /* the fields of a variant are renamed by its own `rename_all`, else by `rename_all_fields` of the enum */
                 /* ( `rename_all` of the enum is for the names of its variants, not of their fields ) */
@@ -452,8 +453,12 @@ pub(super) fn derive_schema(input: TokenStream) -> syn::Result<TokenStream> {
                     (Some(t), Some(c), _) => {/* Adjacently tagged */
                         let t = LitStr::new(t, Span::call_site());
                         let c = LitStr::new(c, Span::call_site());
-                        /* a unit variant is written without content: `{"t": "Name"}` */
-                        let content = (!is_unit).then(|| quote! { .property(#c, #schema) });
+                        /* a unit variant is written without content: `{"t": "Name"}`, and a missing content is read as `None` */
+                        let content = (!is_unit).then(|| if is_newtype_of_option {
+                            quote! { .optional(#c, #schema) }
+                        } else {
+                            quote! { .property(#c, #schema) }
+                        });
                         quote! {
                             ::ohkami::openapi::object()
                                 .property(#t, ::ohkami::openapi::string().enumerates([#tag]))
